@@ -152,7 +152,64 @@ class Response(object):
         return None
 
 
-MODELS = {"Connection": Connection, "Engine": Engine}
+class OperationResult(object):
+    """Result object returned by KMIPProxy operations: status always present; reason and
+    message present (C02: the server sends them whenever the status is not Success).  Any other
+    attribute is an uninterpreted payload field."""
+
+    def _pyvc_dynamic(I, obj, name):
+        r = Opaque('object', 'result.' + name)
+        obj.fields[name] = r
+        return r
+
+
+class _Val(object):
+    pass
+
+
+# KMIPProxy operations that answer with a plain dictionary instead of a result object
+DICT_RESULT_OPS = ('rekey', 'derive_key', 'check', 'encrypt', 'decrypt', 'sign', 'signature_verify')
+
+
+class Proxy(object):
+    """KMIPProxy as seen by ProxyKmipClient: every operation returns an OperationResult (or
+    raises, e.g. on a connection error)."""
+
+    def _pyvc_dynamic(I, obj, name):
+        def call(I2, args, kw):
+            P = I2.path
+            if P.choose(2, "proxy-raises") == 1:
+                e = ExcVal(Exception, (Opaque('str', 'proxy error'),))
+                e.fields['__unknown_subclass__'] = True
+                P.event('proxy.raise', name)
+                raise _pyvc().Raised(e)
+            from kmip.core import enums
+            from .modular import make_symbolic
+            res = Obj(OperationResult, {}, 'result')
+            st = make_symbolic(I2, ('enum', enums.ResultStatus), 'status')
+            res.fields['result_status'] = Obj(_Val, {'value': st})
+            with_msg = obj.fields.get('__messages__', True)
+            rs = make_symbolic(I2, ('enum', enums.ResultReason), 'reason')
+            res.fields['result_reason'] = Obj(_Val, {'value': rs})
+            msg = make_symbolic(I2, 'str', 'message')
+            res.fields['result_message'] = Obj(_Val, {'value': msg}) if with_msg else None
+            P.event('proxy.call', name, st, rs, msg if with_msg else None)
+            if name in DICT_RESULT_OPS:
+                return {'result_status': st, 'result_reason': rs,
+                        'result_message': msg if with_msg else None}
+            return res
+        call._pyvc_model = True
+        return _pyvc().BoundMethod(obj, _drop_self(call))
+
+
+def _drop_self(f):
+    def g(I, args, kw):
+        return f(I, args[1:], kw)
+    g._pyvc_model = True
+    return g
+
+
+MODELS = {"Connection": Connection, "Engine": Engine, "Proxy": Proxy}
 
 
 def make(name, I, label):
@@ -162,6 +219,9 @@ def make(name, I, label):
         o.fields['remaining'] = SSeq('bytes', [('s', t)])
         o.fields['sent'] = []
         o.meta['initial_fields'] = dict(o.fields)
+        return o
+    if name in ("Proxy", "ProxyNoMessage"):
+        o = Obj(Proxy, {'__messages__': name == "Proxy"}, label)
         return o
     if name == "Engine":
         from kmip.core.messages import contents
